@@ -73,57 +73,82 @@ theorem refundToEvm_obs (o : Obs) (cfg : Cfg) (r : Nat) (hf : ∀ k g n, o.flowD
 
 /-! ### holdings of one user (all representations of group `g'`) along each flow -/
 
+/-- a holder: any account that is not a crosschain / erc20 module account or the WFX contract (users, contracts, the
+precompile and evm module accounts) -/
+def Holder (x : Addr) : Prop := (∀ c, x ≠ M c) ∧ x ≠ E ∧ x ≠ .wfx
+
+theorem holder_user (u : Nat) : Holder (U u) := by
+  refine ⟨?_, ?_, ?_⟩ <;> intros <;> simp [U, M, E]
+theorem holder_ext (m : Nat) : Holder (.ext m) := by
+  refine ⟨?_, ?_, ?_⟩ <;> intros <;> simp [M, E]
+
 section acct
-variable (g' u' : Nat)
+variable (g' : Nat) (x : Addr) (hx : Holder x)
+include hx
 
 macro "acct_simp" : tactic =>
   `(tactic| simp [Obs.flowDelta, acctObs, Obs.sum, Obs.add, Obs.zero, assets, balObs, U, M, E, Den.asset, badContract,
       precompileAcc, evmMod])
 
 macro "acct_done" : tactic =>
-  `(tactic| (first | (acct_simp; done) | (acct_simp <;> (repeat' split) <;> (try simp_all) <;> (try omega))))
+  `(tactic| (first | (acct_simp; done) | (acct_simp <;> (repeat' split) <;> (try simp_all [M, E, U]) <;> (try omega))))
+
+/-- orientation facts about the observed holder, for `simp_all` -/
+macro "holder_facts" : tactic =>
+  `(tactic| (obtain ⟨hx1, hx2, hx3⟩ := hx
+             have e1 : ∀ c, ¬ M c = x := fun c e => hx1 c e.symm
+             have e2 : ¬ E = x := fun e => hx2 e.symm
+             have e3 : ¬ Addr.wfx = x := fun e => hx3 e.symm))
 
 theorem acct_deposit (k : Kind) (g c u n : Nat) (hc : c < 3) :
-    (acctObs g' (U u')).flowDelta (bridgeTokenToBaseCoin k g c (U u) n) = if g = g' ∧ u = u' then (n : Int) else 0 := by
+    (acctObs g' x).flowDelta (bridgeTokenToBaseCoin k g c (U u) n) = if g = g' ∧ U u = x then (n : Int) else 0 := by
+  holder_facts
   have : c = 0 ∨ c = 1 ∨ c = 2 := by omega
   rcases this with rfl | rfl | rfl <;> cases k <;>
     simp only [bridgeTokenToBaseCoin, depositBridgeToken, conversionCoin, List.cons_append, List.nil_append, ite_true] <;>
     acct_done
 
 theorem acct_withdraw (k : Kind) (g c u n : Nat) (hc : c < 3) :
-    (acctObs g' (U u')).flowDelta (baseCoinToBridgeToken k g c (U u) n) = if g = g' ∧ u = u' then -(n : Int) else 0 := by
+    (acctObs g' x).flowDelta (baseCoinToBridgeToken k g c (U u) n) = if g = g' ∧ U u = x then -(n : Int) else 0 := by
+  holder_facts
   have : c = 0 ∨ c = 1 ∨ c = 2 := by omega
   rcases this with rfl | rfl | rfl <;> cases k <;>
     simp only [baseCoinToBridgeToken, withdrawBridgeToken, conversionCoin, List.cons_append, List.nil_append] <;>
     acct_done
 
 theorem acct_depositBadRefund (k : Kind) (g c r n : Nat) (hc : c < 3) :
-    (acctObs g' (U u')).flowDelta (bridgeTokenToBaseCoin k g c badContract n ++ [.send (.base g) badContract (U r) n]) =
-      if g = g' ∧ r = u' then (n : Int) else 0 := by
+    (acctObs g' x).flowDelta (bridgeTokenToBaseCoin k g c badContract n ++ [.send (.base g) badContract (U r) n]) =
+      if g = g' ∧ U r = x then (n : Int) else 0 := by
+  holder_facts
   have : c = 0 ∨ c = 1 ∨ c = 2 := by omega
   rcases this with rfl | rfl | rfl <;> cases k <;>
     simp only [bridgeTokenToBaseCoin, depositBridgeToken, conversionCoin, List.cons_append, List.nil_append, ite_true] <;>
     acct_done
 
 theorem acct_convertCoin (k : Kind) (g u r n : Nat) :
-    (acctObs g' (U u')).flowDelta (convertCoin k g (U u) (U r) n) =
-      (if g = g' ∧ r = u' then (n : Int) else 0) - (if g = g' ∧ u = u' then (n : Int) else 0) := by
+    (acctObs g' x).flowDelta (convertCoin k g (U u) (U r) n) =
+      (if g = g' ∧ U r = x then (n : Int) else 0) - (if g = g' ∧ U u = x then (n : Int) else 0) := by
+  holder_facts
   cases k <;> simp only [convertCoin] <;> acct_done
 
 theorem acct_convertERC20 (k : Kind) (g u r n : Nat) :
-    (acctObs g' (U u')).flowDelta (convertERC20 k g (U u) (U r) n) =
-      (if g = g' ∧ r = u' then (n : Int) else 0) - (if g = g' ∧ u = u' then (n : Int) else 0) := by
+    (acctObs g' x).flowDelta (convertERC20 k g (U u) (U r) n) =
+      (if g = g' ∧ U r = x then (n : Int) else 0) - (if g = g' ∧ U u = x then (n : Int) else 0) := by
+  holder_facts
   cases k <;> simp only [convertERC20] <;> acct_done
 
 theorem acct_precompileTokenIn (k : Kind) (g u n : Nat) :
-    (acctObs g' (U u')).flowDelta (precompileTokenIn k g (U u) n) = 0 := by
+    (acctObs g' x).flowDelta (precompileTokenIn k g (U u) n) = 0 := by
+  holder_facts
   cases k <;> simp only [precompileTokenIn, List.cons_append, List.nil_append] <;> acct_done
 
-theorem acct_valueIn (g u n : Nat) : (acctObs g' (U u')).flowDelta (valueIn g (U u) n) = 0 := by
+omit hx in
+theorem acct_valueIn (g u n : Nat) : (acctObs g' x).flowDelta (valueIn g (U u) n) = 0 := by
   simp only [valueIn]; acct_done
 
 theorem acct_addBridgeFee (k : Kind) (g c u n : Nat) (hc : c < 3) :
-    (acctObs g' (U u')).flowDelta (addBridgeFee k g c (U u) n) = if g = g' ∧ u = u' then -(n : Int) else 0 := by
+    (acctObs g' x).flowDelta (addBridgeFee k g c (U u) n) = if g = g' ∧ U u = x then -(n : Int) else 0 := by
+  holder_facts
   have : c = 0 ∨ c = 1 ∨ c = 2 := by omega
   rcases this with rfl | rfl | rfl <;> cases k <;> simp only [addBridgeFee] <;> acct_done
 
@@ -133,7 +158,8 @@ def denOk : Den → Prop
   | .chain c => c < 3
 
 theorem acct_convertDenom (k : Kind) (g u n : Nat) (src dst : Den) (hs : denOk src) (hd : denOk dst) :
-    (acctObs g' (U u')).flowDelta (convertDenom k g (U u) n src dst) = 0 := by
+    (acctObs g' x).flowDelta (convertDenom k g (U u) n src dst) = 0 := by
+  holder_facts
   have hc : ∀ d : Den, denOk d → d = .base ∨ d = .chain 0 ∨ d = .chain 1 ∨ d = .chain 2 := by
     intro d h; cases d with
     | base => exact Or.inl rfl
@@ -143,8 +169,9 @@ theorem acct_convertDenom (k : Kind) (g u n : Nat) (src dst : Den) (hs : denOk s
     simp only [convertDenom, List.cons_append, List.nil_append] <;> acct_done
 
 theorem acct_sendPair (g u r n : Nat) (d : Den) (hd : denOk d) :
-    (acctObs g' (U u')).flowDelta [.send (d.asset g) (U u) E n, .send (d.asset g) E (U r) n] =
-      (if g = g' ∧ r = u' then (n : Int) else 0) - (if g = g' ∧ u = u' then (n : Int) else 0) := by
+    (acctObs g' x).flowDelta [.send (d.asset g) (U u) E n, .send (d.asset g) E (U r) n] =
+      (if g = g' ∧ U r = x then (n : Int) else 0) - (if g = g' ∧ U u = x then (n : Int) else 0) := by
+  holder_facts
   cases d with
   | base => acct_done
   | chain c =>
@@ -153,20 +180,22 @@ theorem acct_sendPair (g u r n : Nat) (d : Den) (hd : denOk d) :
     rcases this with rfl | rfl | rfl <;> acct_done
 
 theorem acct_feeToBridgeDenom (k : Kind) (g c u n : Nat) (hc : c < 3) :
-    (acctObs g' (U u')).flowDelta (feeToBridgeDenom k g c (U u) n) = 0 := by
+    (acctObs g' x).flowDelta (feeToBridgeDenom k g c (U u) n) = 0 := by
   cases k <;> simp only [feeToBridgeDenom]
   · rfl
-  · exact acct_convertDenom g' u' _ g u n .base (.chain c) trivial hc
-  · exact acct_convertDenom g' u' _ g u n .base (.chain c) trivial hc
+  · exact acct_convertDenom g' x hx _ g u n .base (.chain c) trivial hc
+  · exact acct_convertDenom g' x hx _ g u n .base (.chain c) trivial hc
 
 theorem acct_refundCoin (k : Kind) (g c r n : Nat) (hc : c < 3) :
-    (acctObs g' (U u')).flowDelta (bridgeCallRefundCoin k g c (U r) n) = if g = g' ∧ r = u' then (n : Int) else 0 := by
+    (acctObs g' x).flowDelta (bridgeCallRefundCoin k g c (U r) n) = if g = g' ∧ U r = x then (n : Int) else 0 := by
+  holder_facts
   have : c = 0 ∨ c = 1 ∨ c = 2 := by omega
   rcases this with rfl | rfl | rfl <;> cases k <;>
     simp only [bridgeCallRefundCoin, convertDenom, List.cons_append, List.nil_append] <;> acct_done
 
 theorem acct_refundToEvm (k : Kind) (g r n : Nat) :
-    (acctObs g' (U u')).flowDelta (bridgeCallRefundToEvm k g (U r) n) = 0 := by
+    (acctObs g' x).flowDelta (bridgeCallRefundToEvm k g (U r) n) = 0 := by
+  holder_facts
   cases k <;> simp only [bridgeCallRefundToEvm, convertCoin] <;> acct_done
 
 end acct
